@@ -37,6 +37,11 @@ class Ctx:
         self.t0 = time.time()
         self.out = os.path.join(VERIF, "out", prop)
         os.makedirs(self.out, exist_ok=True)
+        for fn in os.listdir(self.out):  # replays of earlier runs are not evidence of this one
+            try:
+                os.remove(os.path.join(self.out, fn))
+            except OSError:
+                pass
         self.violations = []          # (replay path, no_input_found: bool, what)
         self.known_printed = []
         self.coverage = {}
